@@ -6,6 +6,8 @@ Only property theorems and non-vacuity examples live here; helpers are in EnvExp
 `expand`          = model of the code (`env_util::expand_env_vars`: one pass, byte offsets, partial slices)
 `specExpand`      = the statement: one left-to-right pass on characters
 `location`        = model of the call sites (builders, configuration deserializers, `rotate()`)
+`rollingTrace`    = every use of its location by a rolling appender over a history of appends
+`expandOs`        = `expand` in a process whose environment block (byte strings) is `os`
 `expand_unfixed`  = the historical code (replace-all on the accumulating output, finding F7), kept
                     with its witness and its partial theorem
 `alnum`           = `char::is_alphanumeric` (Unicode table, a parameter); only the historical
@@ -86,7 +88,76 @@ theorem C19_unset_and_malformed_untouched (alnum : Char → Bool) (env : Env) (p
     expand alnum env path = .ok path := by
   rw [expand_eq_spec, specExpand, specGo_untouched alnum env path h path [] rfl]
 
+/-! ### The environment: only the referenced variables matter -/
+
+/-- The expansion depends only on the variables the path references: two environments that agree
+on every name occurring in a well-formed reference of the path give the same result. -/
+theorem C19_depends_only_on_referenced (alnum : Char → Bool) (env₁ env₂ : Env) (path : Text)
+    (h : ∀ a t n, path = a ++ (envPrefix ++ t) → refAt alnum t = some n → lookup env₁ n = lookup env₂ n) :
+    expand alnum env₁ path = expand alnum env₂ path := by
+  rw [expand_eq_spec, expand_eq_spec, specExpand, specExpand,
+    specGo_congr alnum env₁ env₂ path h path [] rfl 0]
+
+/-- Bystanders are irrelevant, whatever they are: a variable `b` of the process environment —
+name and value arbitrary byte strings, valid Unicode or not — that no well-formed reference of the
+path names can be added or removed without changing the result, and the expansion does not panic
+in its presence (`std::env::var` is asked per reference; nothing enumerates the environment). -/
+theorem C19_bystanders_irrelevant (alnum : Char → Bool) (os₁ os₂ : OsEnv) (b : Bytes × Bytes) (path : Text)
+    (hb : ∀ a t n, path = a ++ (envPrefix ++ t) → refAt alnum t = some n → decodeUtf8 b.1 ≠ some n) :
+    expandOs alnum (os₁ ++ b :: os₂) path = expandOs alnum (os₁ ++ os₂) path ∧
+    (expandOs alnum (os₁ ++ b :: os₂) path).isPanic = false := by
+  refine ⟨?_, by rw [expandOs, expand_eq_spec]; rfl⟩
+  apply C19_depends_only_on_referenced
+  intro a t n hp hr
+  exact lookup_unicodeView_remove os₁ os₂ b n (hb a t n hp hr)
+
+/-- A variable whose value (or name) is not valid Unicode is, for the expansion, an unset variable:
+it is invisible to `std::env::var`, a reference to it stays as written. -/
+theorem C19_not_unicode_is_unset (alnum : Char → Bool) (os₁ os₂ : OsEnv) (b : Bytes × Bytes) (path : Text)
+    (hb : decodeUtf8 b.1 = none ∨ decodeUtf8 b.2 = none) :
+    expandOs alnum (os₁ ++ b :: os₂) path = expandOs alnum (os₁ ++ os₂) path := by
+  have hsplit : os₁ ++ b :: os₂ = os₁ ++ ([b] ++ os₂) := by simp
+  have hview : unicodeView [b] = [] := by
+    rcases hb with h | h
+    · simp [unicodeView, h]
+    · cases h1 : decodeUtf8 b.1 <;> simp [unicodeView, h, h1]
+  simp only [expandOs]
+  rw [hsplit, unicodeView_append, unicodeView_append, hview, List.nil_append, ← unicodeView_append]
+
 /-! ### Call sites -/
+
+/-- The rolling appender keeps to one location for its whole life: in every history of
+appends (`rolls k` = the policy rolls at the k-th append), the directory created and the file
+opened in `build`, the file handed to the roller at every roll and the file reopened after every
+roll are all the ONE location computed in `build` — the given text expanded once. -/
+theorem C19_rolling_location_stable (alnum : Char → Bool) (env : Env) (given : Text) (rolls : List Bool) :
+    ∃ trace, rollingTrace alnum env given rolls = .ok trace ∧
+      ∀ u ∈ trace, u.path = specLocation alnum env .rollingBuilder given := by
+  have hb : rollingBuildState alnum env given = .ok { path := specExpand alnum env given } := by
+    simp [rollingBuildState, rollingBuild, expand_eq_spec]
+  refine ⟨_, by simp only [rollingTrace, hb]; rfl, ?_⟩
+  have key : ∀ (rs : List Bool) (w : Bool), ∀ u ∈ appendTrace { path := specExpand alnum env given } w rs,
+      u.path = specExpand alnum env given := by
+    intro rs
+    induction rs with
+    | nil => intro w u hu; simp [appendTrace] at hu
+    | cons r rs ih =>
+      intro w u hu
+      simp only [appendTrace, List.mem_append] at hu
+      rcases hu with (hu | hu) | hu
+      · split at hu
+        · simp at hu
+        · simp only [List.mem_singleton] at hu; subst hu; rfl
+      · split at hu
+        · simp only [List.mem_singleton] at hu; subst hu; rfl
+        · simp at hu
+      · exact ih _ u hu
+  intro u hu
+  simp only [List.mem_cons] at hu
+  rcases hu with rfl | rfl | hu
+  · rfl
+  · rfl
+  · exact key rolls true u hu
 
 /-- Every call site — `FileAppender::builder().build`, `RollingFileAppender::builder().build`, the
 two configuration deserializers, and `rotate()` for every slot of a roller built directly or from
@@ -94,13 +165,17 @@ a configuration — puts its file at the text it was given (for the roller: the 
 index filled in) expanded exactly ONCE; in particular a configured path lands where the same text
 given to the builder lands. (On the model of the call sites in EnvExpand/Model.lean; that the
 real deserializers hand the configured text to `build` unexpanded is what the `file-cfg`,
-`rolling-cfg`, `roller-cfg` cases of the correspondence check observe.) -/
+`rolling-cfg`, `roller-cfg` cases of the correspondence check observe.) For the rolling appender
+the location is computed once, in `build`, and every later open, roll and reopen uses it
+(last clause; `C19_rolling_location_stable`). -/
 theorem C19_call_sites_expand_once (alnum : Char → Bool) (env : Env) (site : CallSite) (given : Text) :
     location alnum env site given = .ok (specLocation alnum env site given) ∧
     location alnum env .fileConfig given = location alnum env .fileBuilder given ∧
     location alnum env .rollingConfig given = location alnum env .rollingBuilder given ∧
-    ∀ i, location alnum env (.rollerConfig i) given = location alnum env (.rollerBuilder i) given := by
-  refine ⟨?_, rfl, rfl, fun _ => rfl⟩
+    (∀ i, location alnum env (.rollerConfig i) given = location alnum env (.rollerBuilder i) given) ∧
+    ∀ rolls, ∃ trace, rollingTrace alnum env given rolls = .ok trace ∧
+      ∀ u ∈ trace, u.path = specLocation alnum env .rollingBuilder given := by
+  refine ⟨?_, rfl, rfl, fun _ => rfl, C19_rolling_location_stable alnum env given⟩
   cases site <;>
     simp [location, specLocation, CallSite.submitted, fileBuild, fileDeserialize, rollingBuild,
       rollingDeserialize, rollerSlot, rollerBuild, rollerDeserialize, expand_eq_spec]
